@@ -29,6 +29,9 @@ CFG = {
     'I': ({'t1': ['flush', 'readw', 'clse'], 't2': tour.PUSH2}, {'t1': [[1]], 't2': [[], [1]]}),
     'J': ({'t1': tour.PUSH2, 't2': tour.PUSH2}, {'t1': [[], [1]], 't2': [[], [1]]}),
     'K': ({'t1': tour.PUSH2, 't2': ['flush', 'readw', 'clse'], 't3': ['flush', 'readw', 'clse']}, {'t1': [[], [1]], 't2': [[1]], 't3': [[1]]}),
+    # exploration only (no model counterpart): a pull whose local sink raises while the device still has a WRITE in flight, next to other operations
+    'L': ({'t1': tour.PULLFAIL, 't2': ['shell']}, {'t1': [[]], 't2': [[1, 2]]}),
+    'M': ({'t1': tour.PULLFAIL, 't2': ['shell'], 't3': ['flush', 'readw', 'clse']}, {'t1': [[]], 't2': [[1]], 't3': [[1]]}),
 }
 INV = ('MonitorOK', 'Complete', 'NoCrossTalk', 'NoStuck', 'LockDiscipline')
 
@@ -132,6 +135,9 @@ def do_explore(ctx, rng, n, names, modes):
     # overlapping FileSync transactions need the preemption point inside push (local read): extra schedules with it always on
     for i in range(n // 4):
         runs.append((('K', 'J', 'I')[i % 3], modes[i % len(modes)], 3 * rng.randrange(1 << 28)))
+    # a failing local sink next to other operations: line-level preemption inside read() and the store is what matters there
+    for i in range(n // 4):
+        runs.append((('L', 'M')[i % 2], modes[i % len(modes)], 4 * rng.randrange(1 << 28) + 1))
     traces, infos = [], []
     by = {}
     for name, mode, seed in runs:
@@ -161,6 +167,10 @@ def do_explore(ctx, rng, n, names, modes):
                 got = res[1] if res else None
                 if p == tour.LIST2 and isinstance(got, list):
                     got = [(bytes(x[0]), x[1], x[2], x[3]) for x in got]
+                if p == tour.PULLFAIL:
+                    if res is None or res[0] != 'exc' or 'No space left' not in str(res[1]):
+                        bad = (t, repr(res), "OSError: the local sink's own error")
+                    continue
                 if res is None or res[0] != 'ret' or (p != ['shell'] and got != want):
                     if p in ([],) and res and res[0] == 'ret':
                         continue
